@@ -146,6 +146,31 @@ def make_cases(ctx):
                     role, sid, ver[0], ver[1], k, group, feat, rep), dict(
                     role=role, sid=sid, ver=ver, key=k, group=group,
                     feat=feat)
+    # every feature at least once per role for TLS 1.3 and TLS 1.2 (the
+    # sweep above assigns features at random)
+    for role in ("tl_client", "tl_server"):
+        for ver in ((3, 4), (3, 3)):
+            mine = [c for c in cells if c[1] == ver and
+                    suites.TABLE[c[0]].auth in ("rsa", None) and
+                    suites.TABLE[c[0]].kx_setting not in ("dh_anon",
+                                                          "ecdh_anon") and
+                    (suites.TABLE[c[0]].tls13 or
+                     suites.TABLE[c[0]].ske == "ecdh")]
+            if not mine:
+                continue
+            feats = ["cauth", "resume", "alpn", "recsize", "noems", "noetm"]
+            if ver == (3, 4):
+                feats = ["cauth", "resume", "alpn", "recsize", "hrr",
+                         "resume_hrr"]
+            for feat in feats:
+                for rep in range(ctx.pick(1, 4)):
+                    sid, _ = rng.choice(mine)
+                    group = rng.choice(["secp256r1", "secp384r1",
+                                        "secp521r1"])
+                    yield "feat-%s-%04x-%d%d-%s-%s-%d" % (
+                        role, sid, ver[0], ver[1], group, feat, rep), dict(
+                        role=role, sid=sid, ver=ver, key="rsa", group=group,
+                        feat=feat)
     # negatives
     for role in ("tl_client", "tl_server"):
         for j in range(ctx.pick(8, 60)):
@@ -196,10 +221,12 @@ def run_case(ctx, cid, P):
     sid, ver, role, feat = P["sid"], tuple(P["ver"]), P["role"], P["feat"]
     su = suites.TABLE[sid]
     k, group = P["key"], P["group"]
+    hrr = feat in ("hrr", "resume_hrr")
+    resume = feat in ("resume", "resume_hrr")
     tkw = {}
     if group:
         tkw["eccCurves"] = [group]
-        tkw["keyShares"] = [group] if feat != "hrr" else []
+        tkw["keyShares"] = [group] if not hrr else []
     if su.ske == "dh" or (su.tls13 and False):
         tkw["dhGroups"] = ["ffdhe2048"]
     if feat == "noems":
@@ -218,9 +245,11 @@ def run_case(ctx, cid, P):
     W = {"case": cid, "suite": su.name, "group": group}
     sessions = {}
     cache = SessionCache()
-    rounds = 2 if feat == "resume" else 1
+    rounds = 2 if resume else 1
     tickets = rng.random() < 0.5
-    if feat == "resume" and role == "tl_server" and tickets:
+    if feat == "resume_hrr":
+        tickets = True
+    if resume and role == "tl_server" and tickets:
         ts_.ticketKeys = [bytes(range(32))]
     octx = None
     for rnd in range(rounds):
@@ -233,7 +262,7 @@ def run_case(ctx, cid, P):
                 octx = osslpeer.context(
                     True, ver, ver, cipher_id=sid, cert=cert, key=keyf,
                     alpn=o_alpn, curve=OSSL_CURVE.get(group) if group and
-                    feat != "hrr" else None,
+                    not hrr else None,
                     verify_client_ca=CKEYS[ckey][0] if ckey else None,
                     tickets=tickets)
                 if su.ske == "dh":
@@ -258,7 +287,7 @@ def run_case(ctx, cid, P):
                     False, ver, ver, cipher_id=sid, alpn=o_alpn,
                     cert=CKEYS[ckey][0] if ckey else None,
                     key=CKEYS[ckey][1] if ckey else None,
-                    curve=OSSL_CURVE.get(group) if group and feat != "hrr"
+                    curve=OSSL_CURVE.get(group) if group and not hrr
                     else None)
             o = osslpeer.OsslEnd(link, "client", octx,
                                  session=sessions.get("o"))
@@ -306,7 +335,10 @@ def run_case(ctx, cid, P):
                           "%r vs %r" % (ta, oa))
         if feat == "alpn" and ta is None:
             ctx.violation(dict(key, clause="alpn_not_negotiated"), W, "")
-        if role == "tl_client" and k:
+        if role == "tl_client" and k and not conn.resumed:
+            # (a resumed TLS 1.3 connection exchanges no Certificate and the
+            # client's new Session carries none: recorded, no property
+            # requires the server chain to be copied over)
             der = o.obj.getpeercert(True)   # server has no peer cert
             pc = conn.session.serverCertChain
             want = open(os.path.join(osslpeer.TESTS, KEYS[k][0])).read()
@@ -328,7 +360,7 @@ def run_case(ctx, cid, P):
                 ctx.violation(dict(key, clause="client_chain_missing"), W,
                               "openssl server saw no client certificate")
         # resumption status
-        if feat == "resume":
+        if resume:
             if rnd == 1:
                 ores = o.obj.session_reused
                 tres = bool(conn.resumed)
